@@ -187,7 +187,7 @@ type bombResult struct {
 	Left     int    `json:"left"`
 	Alloc    uint64 `json:"alloc"`
 	GzipLen  int    `json:"gzip_len,omitempty"`
-	Ms       int64  `json:"ms"` // wall time of the decode, informational only (never used for a verdict)
+	Ms       int64  `json:"ms"`    // wall time of the decode, informational only (never used for a verdict)
 	Stack    uint64 `json:"stack"` // runtime StackInuse after the decode (the goroutine stack does not shrink before the next GC)
 }
 
